@@ -33,6 +33,7 @@ WHAT = {
     "M5": "each argument's original text is step_text[start:end] for the start/end it stores",
     "M6": "the default matcher is restored after each step module",
     "M7": "step decorators for given/when/then/step in lower and title case",
+    "M10": "the function behind a decorated step function is found through every layer of functools.wraps (its location identifies the step definition: duplicates vs. ambiguity)",
     "M9": "the parse-family matchers (parse, cfparse) share the one type registry register_type() writes",
     "M8": "each parse matcher builds its own parser from its pattern and its own custom types (no sharing across matchers)",
 }
@@ -553,3 +554,35 @@ def check_lookup_sequences(chk, ix):
                           "%s for the steps %s (same text) one after the other%s binds %s, expected %s: a step must be bound by a definition of its "
                           "own type (or a generic one), whatever an earlier lookup with the same text found" % (
                               meth, list(seq), " in a registry that was cleared before the definitions were added" if cleared else "", got, want), cur.path)
+
+
+
+def check_unwrap_function(chk, ix):
+    """M10: unwrap_function evaluated on chains of wrappers (each wrapper carries __wrapped__, as functools.wraps leaves it):
+    the innermost function comes out, for 0, 1, 2 and 3 layers."""
+    chk.rule("M10", WHAT["M10"])
+    f = ix.func("behave.model_core:unwrap_function")
+    if f is None:
+        raise AnalysisError("anchor missing: behave.model_core:unwrap_function")
+    for layers in (0, 1, 2, 3):
+        it = Interp(ix, name="unwrap_function")
+        it.int_sat = 100
+        st = State()
+        st.frames = []
+        inner = st.alloc(HObj("FuncTok", {"__name__": "step_impl"}, label="the step function"))
+        cur = inner
+        for i in range(layers):
+            cur = st.alloc(HObj("FuncTok", {"__name__": "wrapper%d" % (i + 1), "__wrapped__": cur}, label="wrapper %d" % (i + 1)))
+        outs = it.call_function(st, f, [cur], {}, None)
+        chk.absorb(it)
+        chk.instance("M10")
+        if len(outs) != 1 or outs[0][1] != "val":
+            raise AnalysisError("unwrap_function not evaluable on %d layers: %r" % (layers, [(k, v) for _, k, v in outs][:3]))
+        got = outs[0][2]
+        if isinstance(got, Ref) and got.oid == inner.oid:
+            chk.ok("M10", {"layers of functools.wraps": layers, "unwrapped to": "the step function"}, nontrivial_key=layers)
+        else:
+            _fail(chk, "M10", f, "%d layers -> %s" % (layers, outs[0][0].obj(got).label if isinstance(got, Ref) else repr(got)),
+                  "unwrap_function on a step function behind %d functools.wraps layer(s) returns %s: two different step functions decorated by the "
+                  "same decorators then share one location - a second definition with the same pattern is taken for a reload of the first "
+                  "instead of raising AmbiguousStep" % (layers, outs[0][0].obj(got).label if isinstance(got, Ref) else repr(got)))
